@@ -42,6 +42,23 @@ pub fn type_to_tokens(ty: &ASN1Type) -> String {
     }
 }
 
+/// A TypeScript string literal with the characters escaped that would end or corrupt it.
+fn string_literal(value: &str) -> String {
+    let mut literal = String::with_capacity(value.len() + 2);
+    literal.push('"');
+    for c in value.chars() {
+        match c {
+            '"' => literal.push_str("\\\""),
+            '\\' => literal.push_str("\\\\"),
+            '\n' => literal.push_str("\\n"),
+            '\r' => literal.push_str("\\r"),
+            c => literal.push(c),
+        }
+    }
+    literal.push('"');
+    literal
+}
+
 /// Array type of an element type; a union type (CHOICE, anonymous ENUMERATED) needs parentheses,
 /// since `A | B[]` is `A | (B[])`.
 pub fn array_of(element_type: &ASN1Type) -> String {
@@ -130,7 +147,7 @@ pub fn value_to_tokens(value: &ASN1Value) -> Result<String, GeneratorError> {
             }),
         ASN1Value::Boolean(b) => Ok(String::from(if *b { "true" } else { "false" })),
         ASN1Value::Integer(i) => Ok(i.to_string()),
-        ASN1Value::String(s) => Ok(format!(r#""{s}""#)),
+        ASN1Value::String(s) => Ok(string_literal(s)),
         ASN1Value::Real(r) => Ok(r.to_string()),
         ASN1Value::BitStringNamedBits(_) => Err(GeneratorError {
             top_level_declaration: None,
@@ -213,7 +230,7 @@ pub fn value_to_tokens(value: &ASN1Value) -> Result<String, GeneratorError> {
             integer_type: _,
             value,
         } => Ok(value.to_string()),
-        ASN1Value::LinkedCharStringValue(_, value) => Ok(format!(r#""{value}""#)),
+        ASN1Value::LinkedCharStringValue(_, value) => Ok(string_literal(value)),
         ASN1Value::All => Err(GeneratorError {
             details: "ALL values are currently unsupported!".into(),
             ..Default::default()
